@@ -151,3 +151,99 @@ Proof.
   - apply Nat.eqb_eq in E. split; [intros _; exact E|discriminate].
   - apply Nat.eqb_neq in E. split; [congruence|intros H; contradiction].
 Qed.
+
+(* ---------- field_map ---------- *)
+From Coq Require Import Permutation.
+
+Lemma fm_lookup_In fm c nm : NoDup (map fst fm) -> (fm_lookup fm c = Some nm <-> In (c, nm) fm).
+Proof.
+  induction fm as [|[k n0] r IH]; cbn [fm_lookup map fst In]; intros Hnd.
+  - split; [discriminate|tauto].
+  - inversion Hnd as [|? ? Hni Hnd']; subst. destruct (Ascii.eqb k c) eqn:E.
+    + apply Ascii.eqb_eq in E. subst k. split.
+      * intros [= <-]. left. reflexivity.
+      * intros [[= <-]|Hin]; [reflexivity|]. exfalso. apply Hni. apply (in_map fst) in Hin. exact Hin.
+    + apply Ascii.eqb_neq in E. rewrite (IH Hnd'). split; [tauto|]. intros [[= -> _]|Hin]; [congruence|exact Hin].
+Qed.
+
+Lemma fm_lookup_None fm c : fm_lookup fm c = None <-> ~ In c (map fst fm).
+Proof.
+  induction fm as [|[k n0] r IH]; cbn [fm_lookup map fst In]; [tauto|].
+  destruct (Ascii.eqb k c) eqn:E.
+  - apply Ascii.eqb_eq in E. split; [discriminate|]. intros H. exfalso. apply H. left. exact E.
+  - apply Ascii.eqb_neq in E. rewrite IH. tauto.
+Qed.
+
+Lemma fm_lookup_perm fm fm' c : NoDup (map fst fm) -> Permutation fm fm' -> fm_lookup fm c = fm_lookup fm' c.
+Proof.
+  intros Hnd Hp.
+  assert (Hnd' : NoDup (map fst fm')) by (apply (Permutation_NoDup (Permutation_map fst Hp) Hnd)).
+  destruct (fm_lookup fm c) as [nm|] eqn:E.
+  - symmetry. apply (fm_lookup_In fm' c nm Hnd'). apply (Permutation_in _ Hp). apply (fm_lookup_In fm c nm Hnd). exact E.
+  - symmetry. apply fm_lookup_None. intro Hin. apply (proj1 (fm_lookup_None fm c) E).
+    apply (Permutation_in _ (Permutation_sym (Permutation_map fst Hp))). exact Hin.
+Qed.
+
+(* the order in which the map's keys are written plays no role *)
+Theorem match_bits_fm_perm : forall w ns fm fm',
+  NoDup (map fst fm) -> Permutation fm fm' -> match_bits_fm w ns fm = match_bits_fm w ns fm'.
+Proof.
+  intros w ns fm fm' Hnd Hp. unfold match_bits_fm. destruct (match_bits w ns) as [[m fs]|]; [|reflexivity].
+  assert (E : map (fun cf : ascii * bits => match fm_lookup fm (fst cf) with Some nm => Some (nm, snd cf) | None => None end) fs =
+              map (fun cf : ascii * bits => match fm_lookup fm' (fst cf) with Some nm => Some (nm, snd cf) | None => None end) fs).
+  { apply map_ext. intros cf. rewrite (fm_lookup_perm fm fm' (fst cf) Hnd Hp). reflexivity. }
+  rewrite E. reflexivity.
+Qed.
+
+Lemma all_some_inv {A} (l : list (option A)) r : all_some l = Some r -> l = map Some r.
+Proof.
+  revert r. induction l as [|[x|] l IH]; intros r H; cbn [all_some] in H.
+  - injection H as <-. reflexivity.
+  - destruct (all_some l) as [r'|]; [|discriminate]. injection H as <-. cbn [map]. f_equal. apply IH. reflexivity.
+  - discriminate.
+Qed.
+
+(* with a field_map the match bit and the fields -- positionally, in the order the letters first appear
+   in the pattern -- are those of the call without a map; only the names are replaced; it raises
+   exactly when a field letter is not a key of the map (or the lengths differ) *)
+Theorem match_bits_fm_spec : forall w ns fm m l,
+  match_bits_fm w ns fm = Some (m, l) ->
+  exists fs, match_bits w ns = Some (m, fs) /\
+             map snd l = map snd fs /\
+             map (fun cf => fm_lookup fm (fst cf)) fs = map (fun nl => Some (fst nl)) l.
+Proof.
+  intros w ns fm m l H. unfold match_bits_fm in H. destruct (match_bits w ns) as [[m' fs]|]; [|discriminate].
+  destruct (all_some _) as [l'|] eqn:E; [|discriminate]. injection H as <- <-.
+  exists fs. split; [reflexivity|]. apply all_some_inv in E.
+  clear - E. revert l' E. induction fs as [|[c b] r IH]; intros [|[nm b'] l'] E; cbn [map] in E; try discriminate.
+  - split; reflexivity.
+  - injection E as E0 Er. cbn [fst snd] in E0. destruct (fm_lookup fm c) as [nm0|] eqn:El; [|discriminate].
+    injection E0 as <- <-. destruct (IH l' Er) as [I1 I2]. cbn [map fst snd]. rewrite El, I1, I2. split; reflexivity.
+Qed.
+
+Theorem match_bits_fm_raises : forall w ns fm,
+  match_bits_fm w ns fm = None <->
+  length w <> length ns \/ exists c, In c ns /\ is_field c = true /\ ~ In c (map fst fm).
+Proof.
+  intros w ns fm. unfold match_bits_fm.
+  destruct (match_bits w ns) as [[m fs]|] eqn:Em.
+  - pose proof (proj1 (match_bits_ok w ns)) as Hok. rewrite Em in Hok. specialize (Hok ltac:(discriminate)).
+    destruct (match_bits_fields _ _ _ _ Em) as (_ & _ & Hnames & _).
+    destruct (all_some _) as [l|] eqn:E.
+    + split; [discriminate|]. intros [Hl|(c & Hc & Hf & Hn)]; [contradiction|]. exfalso.
+      apply all_some_inv in E.
+      assert (Hin : In c (map fst fs)) by (apply Hnames; tauto).
+      apply in_map_iff in Hin. destruct Hin as ([c' b] & Ec & Hin). cbn [fst] in Ec. subst c'.
+      apply (in_map (fun cf : ascii * bits => match fm_lookup fm (fst cf) with Some nm => Some (nm, snd cf) | None => None end)) in Hin.
+      rewrite E in Hin. cbn [fst] in Hin. apply fm_lookup_None in Hn. rewrite Hn in Hin.
+      apply in_map_iff in Hin. destruct Hin as (x & Hx & _). discriminate.
+    + split; [|reflexivity]. intros _. right.
+      assert (Hex : exists cf, In cf fs /\ fm_lookup fm (fst cf) = None).
+      { clear - E. induction fs as [|cf r IH]; cbn [map all_some] in E; [discriminate|].
+        destruct (fm_lookup fm (fst cf)) eqn:El; [|exists cf; split; [left; reflexivity|exact El]].
+        destruct (all_some _) eqn:Er in E; [discriminate|]. destruct (IH Er) as (x & Hx & Hl). exists x. split; [right; exact Hx|exact Hl]. }
+      destruct Hex as ([c b] & Hin & Hl). cbn [fst] in Hl. exists c.
+      assert (Hc : In c (map fst fs)) by (apply in_map_iff; exists (c, b); split; [reflexivity|exact Hin]).
+      apply Hnames in Hc. split; [tauto|]. split; [tauto|]. apply fm_lookup_None. exact Hl.
+  - split; [|reflexivity]. intros _. left. intro Hl. apply (proj2 (match_bits_ok w ns)) in Hl. congruence.
+Qed.
